@@ -10,7 +10,7 @@
 EXTENDS Engine, KnownDeviations, Json, IOUtils
 
 Rec == ndJsonDeserialize(IOEnv.TRACE)
-MaxBad == 400
+MaxBad == 400      \* per mismatch kind (what), so that many mismatches of one kind cannot crowd out another kind
 
 VARIABLES st, l, bad, cnt, synced
 vars == <<st, l, bad, cnt, synced>>
@@ -55,6 +55,7 @@ IndexInv(s, o) == ("ic" \in DOMAIN o) => (UserIndexOk(o) /\ HashIndexOk(s, o))
 Init == st = InitSt /\ l = 1 /\ bad = <<>> /\ synced = TRUE
         /\ cnt = [ok |-> 0, known |-> 0, unmodelled |-> 0, skipped |-> 0, queries |-> 0]
 
+NBad(what) == Cardinality({ i \in 1..Len(bad) : bad[i].what = what })
 BadRec(e, what, expOut, dev, want) == [sc |-> e.sc, i |-> e.i, a |-> e.a.a, what |-> what, exp |-> expOut, obs |-> e.out, dev |-> dev, cfg |-> e.cfg, want |-> want]
 
 Step(e) ==
@@ -66,7 +67,7 @@ Step(e) ==
   LET exp == Apply(st, e.a)
       o   == e.st
   IN IF e.out = "panic" THEN
-        /\ bad' = IF Len(bad) < MaxBad THEN Append(bad, BadRec(e, "panic", exp.out, "", <<>>)) ELSE bad
+        /\ bad' = IF NBad("panic") < MaxBad THEN Append(bad, BadRec(e, "panic", exp.out, "", <<>>)) ELSE bad
         /\ synced' = FALSE /\ UNCHANGED <<st, cnt>>
      ELSE IF exp.out = "unmodelled" THEN
         \* outside the model: follow the implementation if the schema is unchanged, else stop checking this scenario
@@ -86,7 +87,7 @@ Step(e) ==
          base    == IF outOk THEN exp.st ELSE st
          want    == IF what = "rows" THEN EvalQ(e.a.q, DbOf(st), <<>>).rows
                     ELSE IF what = "state" THEN [t \in DOMAIN exp.st.tabs |-> exp.st.tabs[t].rows] ELSE <<>>
-     IN /\ bad' = IF what = "" \/ Len(bad) >= MaxBad THEN bad ELSE Append(bad, BadRec(e, what, exp.out, dev, want))
+     IN /\ bad' = IF what = "" \/ NBad(what) >= MaxBad THEN bad ELSE Append(bad, BadRec(e, what, exp.out, dev, want))
         /\ cnt' = [cnt EXCEPT !.ok = IF what = "" THEN @ + 1 ELSE @,
                               !.known = IF what # "" /\ dev # "" THEN @ + 1 ELSE @,
                               !.queries = IF isQ THEN @ + 1 ELSE @]
